@@ -477,6 +477,37 @@ let queue_accept_cmd () =
      done
    with End_of_file -> ())
 
+
+(* ---- C18: the set of (result, number of polls) the to_vec model can produce without spurious re-polls ---- *)
+let tovec_explore () =
+  (try
+     while true do
+       let line = input_line stdin in
+       if String.length line > 0 && line.[0] = '(' then begin
+         match parse_sx line with
+         | [L [A "tv"; L (A "items" :: is); en]] ->
+             let items = List.map atom_nat is in
+             let en = (match en with A "complete" -> TComplete | L [A "error"; e] -> TError (atom_nat e) | _ -> TSilent) in
+             (* state = (model state, polls so far) *)
+             let succ (st, polls) =
+               List.concat (List.map (fun a ->
+                   match tstep st a with
+                   | Some st' -> [(st', (match a, st.t_pp with APoll, PPStart -> polls + 1 | _ -> polls))]
+                   | None -> []) [APoll; ASource]) in
+             let key x = Marshal.to_string x [] in
+             let (finals, complete) = explore key succ (tv0 items en, 0) 1000000 in
+             let outs = List.sort_uniq compare (List.map (fun (st, polls) ->
+                 match st.t_pp with
+                 | PPReady (None, l) -> Printf.sprintf "(%d ok %s)" polls (String.concat " " (List.map (fun n -> string_of_int (int_of_nat n)) l))
+                 | PPReady (Some e, _) -> Printf.sprintf "(%d err %d)" polls (int_of_nat e)
+                 | PPParked -> Printf.sprintf "(%d parked)" polls
+                 | _ -> Printf.sprintf "(%d stuck)" polls) finals) in
+             Printf.printf "(outs %s %s)\n" (if complete then "complete" else "incomplete") (String.concat " " outs)
+         | _ -> print_endline "(error \"bad tv\")"
+       end
+     done
+   with End_of_file -> ())
+
 let () =
   match Array.to_list Sys.argv with
   | _ :: "run-seq" :: fuel :: _ -> run_seq (int_of_string fuel)
@@ -484,4 +515,5 @@ let () =
   | _ :: "gate-explore" :: _ -> gate_explore ()
   | _ :: "gate-oracle" :: _ -> gate_oracle_cmd ()
   | _ :: "queue-accept" :: _ -> queue_accept_cmd ()
+  | _ :: "tovec-explore" :: _ -> tovec_explore ()
   | _ -> prerr_endline "usage: driver run-seq FUEL < scenarios"; exit 2
